@@ -10,7 +10,7 @@ VARIABLE parts
 OccSet == {<<1, 1>>, <<0, 1>>, <<0, U>>, <<1, U>>}
 Slots == << 0..3, {"flat", "chain"}, BOOLEAN, {"string", "Base"}, {"same", "Ext"}, OccSet, BOOLEAN,
             {"none", "elem", "elemAbstractBase"},
-            {"single", "include", "import", "chameleon", "importSameName"}, {"none", "one", "opt", "many"}, BOOLEAN, BOOLEAN, {"none", "other", "any"}, BOOLEAN, 0..MaxDocIdx >>
+            {"single", "include", "import", "chameleon", "importSameName"}, {"none", "one", "opt", "many"}, BOOLEAN, BOOLEAN, {"none", "other", "any"}, BOOLEAN, BOOLEAN, 0..MaxDocIdx >>
 NSlots == Len(Slots)
 NCore == 8
 
@@ -24,7 +24,7 @@ Core(p) == [nmem |-> p[1], shape |-> p[2], abstractHead |-> p[3], htype |-> p[4]
 SchemaAt(p, full) ==
   [nmem |-> p[1], shape |-> p[2], abstractHead |-> p[3], htype |-> p[4], mtype |-> p[5], occ |-> p[6], alsoM1 |-> p[7], ext |-> p[8],
    split |-> IF full THEN p[9] ELSE "single", grp |-> IF full THEN p[10] ELSE "none", agrp |-> IF full THEN p[11] ELSE FALSE,
-   rec |-> IF full THEN p[12] ELSE FALSE, wild |-> IF full THEN p[13] ELSE "none", mixed |-> IF full THEN p[14] ELSE FALSE]
+   rec |-> IF full THEN p[12] ELSE FALSE, wild |-> IF full THEN p[13] ELSE "none", mixed |-> IF full THEN p[14] ELSE FALSE, twins |-> IF full THEN p[15] ELSE FALSE]
 SchemaOf == SchemaAt(parts, TRUE)
 Doc == DocOf(SchemaOf, parts[NSlots])
 
